@@ -914,7 +914,41 @@ func (rn *runner) clobber(t *Target, name string, m interface{}, buf []byte, sna
 
 func damage(r *prng.Rng, b []byte) ([]byte, string) {
 	b = append([]byte{}, b...)
-	switch r.Intn(6) {
+	switch r.Intn(7) {
+	case 6:
+		// the key of one top-level field rewritten with another wire type, payload untouched
+		type span struct {
+			start, keyLen int
+			num           protowire.Number
+			typ           protowire.Type
+		}
+		var recs []span
+		for off := 0; off < len(b); {
+			num, typ, n := protowire.ConsumeTag(b[off:])
+			if n < 0 {
+				break
+			}
+			m := protowire.ConsumeFieldValue(num, typ, b[off+n:])
+			if m < 0 {
+				break
+			}
+			recs = append(recs, span{off, n, num, typ})
+			off += n + m
+		}
+		if len(recs) > 0 {
+			rec := recs[r.Intn(len(recs))]
+			nt := []protowire.Type{protowire.VarintType, protowire.Fixed64Type, protowire.BytesType, protowire.Fixed32Type}[r.Intn(4)]
+			if nt == rec.typ {
+				nt = protowire.VarintType
+				if rec.typ == protowire.VarintType {
+					nt = protowire.BytesType
+				}
+			}
+			out := append([]byte{}, b[:rec.start]...)
+			out = protowire.AppendTag(out, rec.num, nt)
+			out = append(out, b[rec.start+rec.keyLen:]...)
+			return out, "wire-type-swapped"
+		}
 	case 0:
 		if len(b) > 0 {
 			return b[:r.Intn(len(b))], "truncated"
